@@ -57,6 +57,11 @@ func (e *Engine) emit(o *Oblig, lambda bool, withModel bool) string {
 		b.WriteByte('\n')
 	}
 	var axioms []string
+	for _, d := range e.heapDecls {
+		if need[d.name] {
+			fmt.Fprintf(&b, "(declare-const %s %s)\n", d.name, d.sort)
+		}
+	}
 	for _, d := range defs {
 		if !need[d.name] {
 			continue
@@ -77,6 +82,23 @@ func (e *Engine) emit(o *Oblig, lambda bool, withModel bool) string {
 	}
 	for _, f := range o.extraFacts {
 		fmt.Fprintf(&b, "(assert %s)\n", f.s)
+	}
+	// ground extensionality for the string identities in the cone: distinct identities differ in length or in a byte
+	var ids []T
+	for _, id := range e.strIDs {
+		if need[id.s] {
+			ids = append(ids, id)
+		}
+	}
+	if len(ids) <= 40 {
+		for i := 0; i < len(ids); i++ {
+			for j := i + 1; j < len(ids); j++ {
+				d := fmt.Sprintf("sd!%d!%d", i, j)
+				fmt.Fprintf(&b, "(declare-const %s Int)\n", d)
+				fmt.Fprintf(&b, "(assert (or (= %s %s) (not (= (slen %s) (slen %s))) (and (<= 0 %s) (< %s (slen %s)) (not (= (select (sarr %s) %s) (select (sarr %s) %s))))))\n",
+					ids[i].s, ids[j].s, ids[i].s, ids[j].s, d, d, ids[i].s, ids[i].s, d, ids[j].s, d)
+			}
+		}
 	}
 	fmt.Fprintf(&b, "(assert (not %s))\n(check-sat)\n", o.goal.s)
 	if withModel {
